@@ -10,7 +10,7 @@
    program. *)
 From Coq Require Import List NArith Bool.
 Import ListNotations.
-Require Import Verif.Lib.Wire Verif.Gen.Facts_C11 Verif.Model.C11 Verif.Proofs.C11 Verif.Proofs.C11_gen Verif.Proofs.C11_char.
+Require Import Verif.Lib.Wire Verif.Gen.Facts_C11 Verif.Model.C11 Verif.Proofs.C11 Verif.Proofs.C11_gen Verif.Proofs.C11_char Verif.Proofs.C11_lineage.
 
 Theorem C11_generated_permits_is_model : forall L ps p,
   gen_permits L ps p = permits L ps p.
@@ -197,3 +197,44 @@ Theorem C11_sec_principals_allowed_consistent : forall L p q,
   hp_granted (has_permission true None L [q; everyone] p) = true.
 Proof. exact sec_principals_allowed_consistent. Qed.
 Print Assumptions C11_sec_principals_allowed_consistent.
+
+(* ---- pyramid.location.lineage, regenerated from the source as [gen_lineage] (a world of __parent__ pointers, fuel for
+   the while loop).  [is_lineage W r l]: l is r, then r.__parent__, ... up to the first resource whose __parent__ is None
+   or missing (Proofs/C11_lineage.v). *)
+Theorem C11_generated_lineage_is_model : forall W fuel r,
+  gen_lineage W fuel r = lineage_from W fuel r.
+Proof. exact gen_lineage_is_model. Qed.
+Print Assumptions C11_generated_lineage_is_model.
+
+(* no depth bound: whatever the length of the lineage, with more fuel than that the generator yields exactly it *)
+Theorem C11_lineage_exact : forall W r l fuel,
+  length l < fuel -> (gen_lineage W fuel (Some r) = Some l <-> is_lineage W r l).
+Proof. exact gen_lineage_exact. Qed.
+Print Assumptions C11_lineage_exact.
+
+Theorem C11_lineage_unique : forall W r l1, is_lineage W r l1 -> forall l2, is_lineage W r l2 -> l1 = l2.
+Proof. exact is_lineage_functional. Qed.
+Print Assumptions C11_lineage_unique.
+
+(* end to end: lineage() of the context, then the ACL scan = first matching ACE over the ACLs along THE lineage *)
+Theorem C11_world_permits_first_match : forall W ctx l fuel ps p,
+  is_lineage W ctx l -> length l < fuel ->
+  exists d, world_permits W fuel ctx ps p = Some d
+            /\ granted d = spec_granted (map (acl_of W) l) ps p.
+Proof. exact world_permits_first_match. Qed.
+Print Assumptions C11_world_permits_first_match.
+
+Theorem C11_world_allowed_consistent : forall W ctx l fuel p q,
+  is_lineage W ctx l -> length l < fuel -> wf_lineage (map (acl_of W) l) = true ->
+  exists A d, world_principals_allowed W fuel ctx p = Some A
+              /\ world_permits W fuel ctx [q; everyone] p = Some d
+              /\ (In q A -> granted d = true).
+Proof. exact world_allowed_consistent. Qed.
+Print Assumptions C11_world_allowed_consistent.
+
+(* the world the harness builds from a case: the regenerated lineage() recovers exactly the case's ACL list *)
+Theorem C11_chain_world_acls : forall L e,
+  L <> [] -> (forall y, e <> PTo y) ->
+  world_acls (chain_world L e) (S (length (chain_world L e))) 0 = Some L.
+Proof. exact chain_world_acls. Qed.
+Print Assumptions C11_chain_world_acls.
